@@ -252,8 +252,16 @@ def mutate_in_place(value, rng, depth=0, seen=None, donor=None):
         return changes + 1
     module = type(value).__module__
     if module.startswith('cryptoparser.'):
-        for _name, item in (lib._fields_of(value) or []):  # pylint: disable=protected-access
+        for name, item in (lib._fields_of(value) or []):  # pylint: disable=protected-access
             changes += mutate_in_place(item, rng, depth + 1, seen)
+            # a scalar held by a (mutable) library object is edited by assignment: `record.percent.value = 10`
+            if not name.startswith('_') and depth >= 1 and type(item) in (bool, int, str):
+                replacement = (not item) if isinstance(item, bool) else (item + 1 if isinstance(item, int) else item + 'x')
+                try:
+                    setattr(value, name, replacement)
+                    changes += 1
+                except Exception:  # pylint: disable=broad-except
+                    pass        # a frozen class: nothing a caller could edit
     return changes
 
 
@@ -299,11 +307,38 @@ def check_alias(case):
         changed = mutate_in_place(one.value[0], rng)
         check_alias.changed = changed
         if _state(two.value[0]) != before:
-            findings.append(Finding('alias-objects/%s' % name, {'changes_made_to_first': changed}))
+            # named after the class of the parsed object (a variant parser is not where shared state lives)
+            findings.append(Finding('alias-objects/%s' % type(one.value[0]).__name__, {
+                'changes_made_to_first': changed, 'parsed_through': name}))
     return findings
 
 
 check_alias.changed = 0
+
+
+def check_noarg_defaults(case):
+    """Classes that can be built without any argument (every field has a default): one instance is edited in place, a
+    second instance built afterwards equals what a first-ever instance looked like.  -> findings, or None when the
+    class cannot be built that way."""
+    cls = lib.resolve(case['cls'])
+    first = lib.call(cls)
+    if not first.ok:
+        return None
+    baseline = _state(first.value)
+    twin = lib.call(cls)
+    if not twin.ok or _state(twin.value) != baseline:
+        return []          # defaults produced per call (time, random values): two fresh instances differ anyway
+    changed = mutate_in_place(first.value, random.Random(digest(case['cls'])), depth=1)
+    if not changed:
+        return []
+    second = lib.call(cls)
+    if not second.ok:
+        return []
+    if _state(second.value) != baseline:
+        return [Finding('shared-default:noarg/%s' % cls.__name__, {
+            'what': 'an instance built with no arguments after another one was edited in place differs from the first-ever one',
+            'changes_made_to_first': changed})]
+    return []
 
 
 # ---------------------------------------------------------------------------------------------------
@@ -427,6 +462,8 @@ def check_case(case):
         return check_alias(case)
     if kind == 'defaults':
         return check_defaults(case)
+    if kind == 'noarg-defaults':
+        return check_noarg_defaults(case) or []
     raise ValueError(kind)
 
 
@@ -530,6 +567,14 @@ def _job(arg):
         rng = random.Random(seed_value)
         for cls in lib.concrete_classes()[index::shards]:
             ref = lib.ref_of(cls)
+            case = {'kind': 'noarg-defaults', 'cls': ref}
+            found = check_noarg_defaults(case)
+            if found is not None:
+                stats.evaluations += 1
+                stats.labels['noarg-defaults'] += 1
+                stats.nontriv(jdump(case))
+                for finding in found:
+                    stats.finding(finding, case)
             inputs = list(seeds.seeds_for(cls)) + registry.composed_examples(cls)
             for data in inputs:
                 if time.time() - started > budget_s:
